@@ -305,9 +305,12 @@ def SBInv (s : SB) : Prop :=
 theorem new_inv (bs mm mc : Nat) : SBInv (SB.new bs mm mc) := by
   simp [SBInv, SB.new]
 
-theorem mkChunk_length (c : Chan) (seq req fin : Nat) (body : Bytes) :
-    (mkChunk c seq req fin body).length = 24 + body.length := by
-  simp [mkChunk, u32le]; omega
+theorem secHdr_length (c : Chan) (k : CKind) : (secHdr c k).length = if k = .opn then 59 else 4 := by
+  cases k <;> simp [secHdr, asymNone, u32le]
+
+theorem mkChunk_length (c : Chan) (k : CKind) (seq req fin : Nat) (body : Bytes) :
+    (mkChunk c k seq req fin body).length = 20 + (secHdr c k).length + body.length := by
+  cases k <;> simp [mkChunk, kindCode, u32le] <;> omega
 
 theorem chunksOfF_bound (n : Nat) : ∀ (fuel : Nat) (d : Bytes), ∀ p ∈ chunksOfF n fuel d, p.length ≤ n := by
   intro fuel
@@ -323,9 +326,9 @@ theorem chunksOfF_bound (n : Nat) : ∀ (fuel : Nat) (d : Bytes), ∀ p ∈ chun
       · subst h; simp; omega
       · exact ih _ _ h
 
-theorem numberChunks_bound (c : Chan) (seq req n : Nat) : ∀ (ps : List Bytes) (i : Nat) (cs : List Bytes),
-    (∀ p ∈ ps, p.length ≤ n) → numberChunks c seq req i ps = some cs →
-    ∀ ch ∈ cs, 0 < ch.length ∧ ch.length ≤ 24 + n := by
+theorem numberChunks_bound (c : Chan) (k : CKind) (seq req n : Nat) : ∀ (ps : List Bytes) (i : Nat) (cs : List Bytes),
+    (∀ p ∈ ps, p.length ≤ n) → numberChunks c k seq req i ps = some cs →
+    ∀ ch ∈ cs, 0 < ch.length ∧ ch.length ≤ 20 + (secHdr c k).length + n := by
   intro ps
   induction ps with
   | nil => intro i cs _ h ch hch; simp [numberChunks] at h; subst h; simp at hch
@@ -335,7 +338,7 @@ theorem numberChunks_bound (c : Chan) (seq req n : Nat) : ∀ (ps : List Bytes) 
     cases ha : addU32 seq i with
     | none => simp [ha] at h
     | some s0 =>
-      cases hn : numberChunks c seq req (i + 1) ps with
+      cases hn : numberChunks c k seq req (i + 1) ps with
       | none => simp [ha, hn] at h
       | some rest =>
         simp [ha, hn] at h
@@ -382,13 +385,15 @@ theorem write_inv (s : SB) (c : Chan) (cl : Bool) (req nid : Nat) (msg : Bytes) 
                   split at he
                   · simp at he
                   · rename_i hge
-                    cases hn : numberChunks c first req 0 (chunksOf (s.sendSize - 24) msg) with
+                    cases hn : numberChunks c (msgKind msg) first req 0 (chunksOf (s.sendSize - (20 + (secHdr c (msgKind msg)).length)) msg) with
                     | none => simp [hn] at he
                     | some cs1 =>
                       simp [hn] at he
                       subst he
                       intro ch hch
-                      have := numberChunks_bound c first req (s.sendSize - 24) _ 0 cs1
+                      have hsl : (secHdr c (msgKind msg)).length ≤ 59 := by
+                        rw [secHdr_length]; split <;> omega
+                      have := numberChunks_bound c (msgKind msg) first req (s.sendSize - (20 + (secHdr c (msgKind msg)).length)) _ 0 cs1
                         (chunksOfF_bound _ _ _) hn ch hch
                       constructor
                       · exact this.1
